@@ -10,6 +10,7 @@ import collections
 import os
 import re
 from vlib import COQ, Hit, Result, diff_lines, sh
+from props.stress_twin import run_twin, twin_replay
 
 ASSUMPTIONS = [
     'sequentially consistent interleaving at LOAD/CAS granularity; compare_exchange_weak never fails spuriously on x86 (the index-queue model allows it, the lock-step runs do not exercise it)',
@@ -432,13 +433,40 @@ def run(ctx):
               'extracted model replays the same schedule and must predict every step (site, function, node numbered by first '
               'appearance), every return value and the drained contents. A case is non-trivial when >=2 threads interleave; '
               'distinct = distinct (input,schedule) lines. Sequential DIFF against the two-ended list; back-ends: DIFF + '
-              'conservation under real concurrency (testing)')
+              'conservation under real concurrency (testing). '
+              'STRESS (free-running stress twins, harness/c17_stress.cpp): real threads released from one spin barrier with '
+              'offsets swept over 0..127 spin iterations, no controller, no hook installed, monitors independent of the model. '
+              'iq: fresh contiguous_index_queue<uint32> over [first, first+len), len 0..24 (also next to 2^32), 2..6 threads each '
+              'running 1..10 drawn pop_left/pop_right calls back to back, main thread drains; monitors: no index twice '
+              '(duplicate), popped + remaining = initial range (lost / foreign), per thread every pop after pop_left=i is > i and '
+              'after pop_right=j is < j (order), remaining indices contiguous, empty reported only when nothing is left. '
+              'dq: fresh deque<uint64> per trial with a pool pre-sized beyond the trial; because of the known finding '
+              'C17:deque:aba_link_tag_reset (needs a node that is freed and allocated again) a trial consists of phases that only '
+              'push (2..4 threads, drawn ends, nothing freed) or only pop (2..4 threads, drawn ends, nothing allocated) — push / '
+              'sequential drain, sequential fill / pop, push then pop — so no node is ever reused and F15 cannot fire; monitors: '
+              'multiset pushed = popped + drained (duplicate / lost / foreign), a thread\'s later push_left lies left of and later '
+              'push_right right of its earlier pushes in the drained sequence (push_order), pops of one thread move inwards in '
+              'the known sequence (pop_order), empty reported only when nothing is left. '
+              'mx: pushes racing pops on one fresh deque, still without node reuse — 2..4 threads run drawn programs (per thread all '
+              'pushes before all pops; producers/consumers, half/half or drawn split), the harness installs a hook function (not '
+              'the controller) that counts allocations (site 1712) and holds a popper that has already won its anchor CAS at site '
+              '1719 (before it reads the value and frees the node) until every push of the trial has allocated its node; pushes '
+              'allocate first and wait for nobody, so no node freed in a trial is ever allocated again; monitors: multiset '
+              'pushed = popped + drained (duplicate / lost / foreign), allocation count. Forked child, crash/hang = hit; 4 + 3 + 3 s '
+              'time boxes quick, 30 s each thorough. They exist because lock-step cannot schedule inside an atomic step that a '
+              'code change split in two (e.g. the range / anchor CAS replaced by load, compare, store).')
     ctx.build_pika()
     drv = ctx.build_model('C17', 'ExtractC17.v', 'drv_c17.ml')
     h_iq = ctx.build_harness('c17_iq', 'c17_iq.cpp')
     h_dq = ctx.build_harness('c17_deque', 'c17_deque.cpp', extra=['-mcx16'])
     h_ff = ctx.build_harness('c17_fifo', 'c17_fifo.cpp', extra=['-mcx16'])
+    h_st = ctx.build_harness('c17_stress', 'c17_stress.cpp', extra=['-mcx16'])
     quick = ctx.tier == 'quick'
+    if twin_replay(ctx, 'c17_stress'):
+        run_twin(ctx, r, 'C17', h_st, 'c17_stress', 'IQS', ['iq'], 100000000, 5000, 'contiguous_index_queue', sig_prefix='C17:stress')
+        run_twin(ctx, r, 'C17', h_st, 'c17_stress', 'DQS', ['dq'], 100000000, 5000, 'lock-free deque (phases without node reuse)', sig_prefix='C17:stress')
+        run_twin(ctx, r, 'C17', h_st, 'c17_stress', 'DQM', ['mx'], 100000000, 5000, 'lock-free deque (pushes racing pops, no node reuse)', sig_prefix='C17:stress')
+        return r
     if ctx.replay:
         return replay(ctx, r, drv, h_iq, h_dq, h_ff)
 
@@ -549,4 +577,16 @@ def run(ctx):
     # ---------------- back-ends (testing)
     for sd in seeds:
         run_backends(ctx, r, h_ff, sd, 600 if quick else 6000)
+
+    # ---------------- free-running stress twins (real concurrency, monitors only)
+    r.notes.append('deque stress twins never reuse a node within a trial (fresh deque per trial; dq: push-only and pop-only phases; mx: '
+                   'frees are held back by a hook until every push has allocated), so the known finding C17:deque:aba_link_tag_reset '
+                   '(F15) cannot fire; races that need a recycled node are covered by lock-step and the model only')
+    run_twin(ctx, r, 'C17', h_st, 'c17_stress', 'IQS', ['iq'], 100000000, 4000 if quick else 30000,
+             'contiguous_index_queue', min_trials=50000, sig_prefix='C17:stress')
+    run_twin(ctx, r, 'C17', h_st, 'c17_stress', 'DQS', ['dq'], 100000000, 3000 if quick else 30000,
+             'lock-free deque (push-only / pop-only phases, no node reuse)', min_trials=20000, sig_prefix='C17:stress')
+    run_twin(ctx, r, 'C17', h_st, 'c17_stress', 'DQM', ['mx'], 100000000, 3000 if quick else 30000,
+             'lock-free deque (pushes racing pops; frees held back until every node is allocated, no node reuse)',
+             min_trials=20000, sig_prefix='C17:stress')
     return r
